@@ -21,7 +21,7 @@ NestedSubsets ==
               u \in SubsetsOf(UserMin, UserOptVals)}
 
 \* every (top-level optional parameter present) x (nested map full) pair is covered by the full request
-FullRequests == {SentCase(c, ReqFull(c, F), "full", F) : c \in ParamCommands}
+FullRequests == {SentCase(c, ReqFull(c, F), "full", F) : c \in ParamCommands} \cup {SentCase(1, ReqRich(1, F), "rich", F)}
 
 \* enumerations inside requests: every sub-command
 SubCommands ==
